@@ -54,7 +54,14 @@ type Account struct {
 	Priv *secp256k1.PrivKey
 }
 
-func (a *Account) Addr() sdk.AccAddress    { return sdk.AccAddress(a.Priv.PubKey().Address()) }
+func (a *Account) Addr() sdk.AccAddress {
+	if a.Priv == nil {
+		return sdk.AccAddress(govAddrBytes)
+	}
+	return sdk.AccAddress(a.Priv.PubKey().Address())
+}
+
+var govAddrBytes []byte
 func (a *Account) ValAddr() sdk.ValAddress { return sdk.ValAddress(a.Priv.PubKey().Address()) }
 
 func seedBytes(tag string, i int) []byte {
